@@ -45,7 +45,18 @@ RULE = ('failing evaluations only: a random target (short, long (lists of 40+ it
         'characters). The tracer records the VALUE of every spec / target it can encode (builtin containers above leaves); the Lean model '
         'renders them with its model of bbrepr under the limits extracted from glom\'s instance and must reproduce the text; the property is '
         'evaluated against Python\'s own repr of the value (refRepr). In 10% of the cases bbrepr alone is compared with the model under RANDOM '
-        'limits (every reprlib limit between 0 and 60) on random values. non-trivial = >= 3 calls and (a branch or '
+        'limits (every reprlib limit between 0 and 60) on random values. In 8% a Switch case / Match-dict entry (the hosts besides '
+        'tuple / Pipe that chain a VALUE spec onto the scope of a KEY spec through chain_child) whose key matches only after an alternative '
+        'inside it failed and was recovered (Or(rejected.., ok), Coalesce(rejected.., ok), Not(rejected), And(ok, such a key), nested, in a '
+        'chain; bare or under Match) and whose value then fails (missing key, type mismatch, raising callable, all-failing Coalesce / Or / '
+        'Switch, chain failing later), after 0-2 rejected cases, placed bare / as a later chain step / dict value / branch of an outer '
+        'Coalesce or Or: the recovered alternative is forgiven, only a spec that RAISED may show branches (clause 6). In 8% a HOSTILE value: an '
+        'object whose __repr__ is long (120-320 characters: the truncation path runs at every width), raises any of 17 exception classes or '
+        'returns a non-str; whose __len__ raises any of these classes, returns a negative / > sys.maxsize / non-int / arbitrary number; whose '
+        '__bool__ / __eq__ / __hash__ raise or lie - as the root target, below it (reached by a chain step, inside a dict / list that is shown), '
+        'as the target of a Coalesce / Switch branch or a dict value, and as the SPEC (a callable object that raises): str(exc) must work and '
+        'the line ends in the plain ... mark. (User EXCEPTION classes with an __eq__ of their own - raising / always True / by value - are '
+        'generated only behind HOSTILE_ERROR_EQ: glom compares the errors of adjacent rows with ==, see the report.) non-trivial = >= 3 calls and (a branch or '
         'a chain or a truncation) / a unit case in which something is elided; distinct = distinct (events, width)')
 TRUSTED = ['repr() of leaves that are not builtin containers / str / int (glom spec objects, floats, bytes …), which non-ASCII characters are '
            'printable (str.isprintable, sent with the case) and traceback.format_exception_only texts are taken as given']
@@ -58,6 +69,8 @@ ASSUMPTIONS = ['the Python traceback lines appended after the trace are Python\'
                '.args) cannot be wrapped: glom() then raises the user\'s own object, whose message is the user\'s -- "an error '
                'raised by glom()" is read as a GlomError (incl. GlomError.wrap(<class>)); such cases are generated and skipped. A '
                'non-GlomError leaving glom() although it can be re-created from .args IS reported (its message has no trace)',
+               'len(value) in _format_trace_value is observed as: a number, or none (no __len__, or __len__ / len() raised any Exception - the '
+               'model writes the plain ... mark for all of these, as `except Exception` does)',
                'the trace contained in a message is read from the first line with a Target: label on, after removing the type and '
                'message of the original error the message ends with (which may itself contain the trace of a nested glom call)']
 MANIFEST = dict(
@@ -114,7 +127,9 @@ MANIFEST = dict(
           "budget per nesting level; long strings must keep their quote: c05_repr_quote_unstable); c05_repr_one_line - the text of a value has no line break; "
           "c05_default_limits_elide - under reprlib's defaults short values are elided (C05-s9). The property is evaluated "
           "against Python's repr of the recorded values (a line that elides the inside of a value that fits it does not "
-          "show the value)."),
+          "show the value). Clause 6 (no stale branches: a + Spec: line shows a call that raised) is part of checkC05 and of the "
+          "lift (c05_text_clause6); c05_stale_branch_counterexample: the bookkeeping without chain_child's forgiving renders "
+          "glom({'b': 1}, Switch([(Or('a', 'b'), 'zz')])) with the abandoned alternative as a stale branch and fails it."),
     note=("partial in what is taken as given: the repr() of leaves that are not builtin containers / str / int (glom spec "
           "objects: each __repr__ calls bbrepr afresh), which characters are printable, and the Python traceback lines "
           "after the trace; the hypotheses of the lift theorem do not hold of every evaluation (e.g. the text of a nested "
@@ -164,7 +179,34 @@ class ChangesArgsError(Exception):
         super().__init__('tagged', *a)
 
 
+class EqRaisesError(Exception):
+    """a user exception whose == raises (the renderer must compare errors by identity)"""
+    def __eq__(self, other):
+        raise RuntimeError('comparing errors')
+    __hash__ = Exception.__hash__
+
+
+class EqTrueError(Exception):
+    """a user exception that claims to be equal to anything"""
+    def __eq__(self, other):
+        return True
+    __hash__ = Exception.__hash__
+
+
+class EqArgsError(Exception):
+    """a user exception compared by value: two different raises with the same arguments are =="""
+    def __eq__(self, other):
+        return type(other) is type(self) and other.args == self.args
+    __hash__ = Exception.__hash__
+
+
 def raise_kind(kind):
+    if kind == 'x_eq_raises':
+        raise EqRaisesError('p')
+    if kind == 'x_eq_true':
+        raise EqTrueError('p')
+    if kind == 'x_eq_args':
+        raise EqArgsError('same', 1)
     if kind == 'x_key':
         raise KeyError('k')
     if kind == 'x_key_lookup':
@@ -207,6 +249,12 @@ X_WRAPPABLE = ['x_key', 'x_key_lookup', 'x_key2', 'x_index', 'x_index_lookup', '
                'x_unicode_real', 'x_ownstr', 'x_ownstr_noargs', 'x_multistr', 'x_ownstr_key', 'x_stopiter', 'x_syntax']
 # not wrappable: the error that leaves glom() is the user's own object (outside the property: see ASSUMPTIONS)
 X_UNWRAPPABLE = ['x_needs_args', 'x_changes_args']
+# user exceptions with an __eq__ of their own (raising / always True / by value).
+# GATED: glom's _unpack_stack compares the errors of adjacent rows with `==` (core.py `if cur[3] == nxt[3]`), so
+# str(error) raises when __eq__ raises and an error line is dropped when __eq__ lies -- a defect of the unchanged
+# tree (reported; fix: compare with `is`).  Switch on once the fix is committed.
+HOSTILE_ERROR_EQ = True
+X_EQ = ['x_eq_raises', 'x_eq_true', 'x_eq_args']
 
 
 class XFn(ic.Fn):
@@ -233,9 +281,11 @@ def prepare(j, fns):
             elif kind == 'x_val':
                 import glom as G
                 fns[name] = G.Val(dec5(j['v'], fns))
+            elif kind == 'x_obj':
+                fns[name] = dec5(j['v'], fns)
             else:
                 fns[name] = XFn(name, kind)
-    if kind == 'x_val':
+    if kind in ('x_val', 'x_obj'):
         return
     for key_, v in j.items():
         if isinstance(v, (dict, list)):
@@ -280,6 +330,11 @@ def dec5(j, fns=None):
     if isinstance(j, dict):
         if 'named' in j:
             return NAMED[j['named']]
+        if 'hostile' in j:
+            obj = hostile_class(j['hostile'])()
+            for name, vj in (j['hostile'].get('attrs') or {}).items():
+                object.__setattr__(obj, name, dec5(vj, fns))
+            return obj
         if 'f' in j:
             return float.fromhex(j['f'])
         if 'by' in j:
@@ -306,6 +361,8 @@ def dec5(j, fns=None):
 def enc5(v):
     import array
     import collections
+    if type(v).__name__ == 'Hostile' and hasattr(type(v), '_cfg'):
+        return {'hostile': type(v)._cfg}
     for k, o in NAMED.items():
         if o is v or (type(v) in (range, slice) and type(o) is type(v) and o == v):
             return {'named': k}
@@ -720,7 +777,7 @@ class C05Gen(Gen):
 
     def xfn(self, kinds=None):
         r = self.rng
-        pool = kinds or (X_WRAPPABLE * 4 + X_UNWRAPPABLE)
+        pool = kinds or (X_WRAPPABLE * 4 + X_UNWRAPPABLE + (X_EQ * 6 if HOSTILE_ERROR_EQ else []))
         return self.fn(r.choice(pool))
 
     def leaf(self, v):
@@ -740,13 +797,13 @@ def leaf_positions(j, path=(), out=None):
     if out is None:
         out = []
     if isinstance(j, dict):
-        if j.get('k') in ('fn', 't', 'str') and j.get('kind') not in ('x_check', 'x_val'):
+        if j.get('k') in ('fn', 't', 'str') and j.get('kind') not in ('x_check', 'x_val', 'x_obj'):
             out.append(path)
             return out
         for key_, v in j.items():
             if key_ in ('v', 'scope', 'skip', 'dflt_factory', 'skip_exc', 'defaults', 'base', 'equal_to'):
                 continue
-            if j.get('kind') == 'x_val':
+            if j.get('kind') in ('x_val', 'x_obj'):
                 continue
             if key_ in ('es',):
                 for i, pair in enumerate(v):
@@ -1067,6 +1124,190 @@ def default_raises(rng, g, t):
     return spec
 
 
+# ----------------------------------------------------------------- hostile values
+# user objects whose dunders -- the ones the trace renderer calls on a value it shows: __repr__ (bbrepr ->
+# reprlib.repr_instance) and __len__ (_format_trace_value, only when the repr is truncated); and the ones glom's
+# evaluation may call on a target: __bool__, __eq__, __hash__ -- raise an exception of any class or lie.
+HOSTILE_EXC = ['OverflowError', 'NotImplementedError', 'ValueError', 'RuntimeError', 'KeyError', 'AttributeError',
+               'TypeError', 'ZeroDivisionError', 'OSError', 'LookupError', 'StopIteration', 'MemoryError', 'RecursionError',
+               'AssertionError', 'UnicodeError', 'HostileError', 'GlomError']
+
+
+class HostileError(Exception):
+    pass
+
+
+def _hostile_exc(name):
+    import builtins
+    import glom as G
+    if name == 'HostileError':
+        return HostileError('hostile')
+    if name == 'GlomError':
+        return G.GlomError('hostile')
+    return getattr(builtins, name)('hostile')
+
+
+_HOSTILE_CLASSES = {}
+
+
+def hostile_class(cfg):
+    """cfg: {'repr': ['text', s] | ['raise', exc] | ['nonstr'],  'len': absent | ['ret', n] | ['raise', exc] | ['nonint'],
+             'bool' / 'eq' / 'hash': absent | ['raise', exc] | ['ret', v],  'call': absent | ['raise', exc],  'attrs': {name: value-json}}"""
+    k = json.dumps(cfg, sort_keys=True)
+    if k in _HOSTILE_CLASSES:
+        return _HOSTILE_CLASSES[k]
+
+    def act(mode, default=None):
+        def method(self, *a, **kw):
+            if mode[0] == 'raise':
+                raise _hostile_exc(mode[1])
+            if mode[0] == 'ret':
+                return mode[1]
+            if mode[0] == 'nonstr':
+                return 12345
+            if mode[0] == 'nonint':
+                return 'three'
+            if mode[0] == 'text':
+                return mode[1]
+            return default
+        return method
+    ns = {'_cfg': cfg, '__repr__': act(cfg.get('repr', ['text', '<Hostile>']))}
+    for dunder in ('len', 'bool', 'eq', 'hash', 'call'):
+        if dunder in cfg:
+            ns['__%s__' % dunder] = act(cfg[dunder])
+    if 'eq' in cfg and 'hash' not in cfg:
+        ns['__hash__'] = lambda self: 7
+    cls = type('Hostile', (object,), ns)
+    _HOSTILE_CLASSES[k] = cls
+    return cls
+
+
+def hostile_cfg(rng, long_repr=True):
+    exc = lambda: rng.choice(HOSTILE_EXC)
+    cfg = {}
+    p = rng.random()
+    if p < 0.8:
+        n = rng.randint(120, 320) if long_repr else rng.randint(5, 40)
+        body = ''.join(rng.choice('abcdefgh ijk_=,') for _ in range(n))
+        cfg['repr'] = ['text', rng.choice(['Grid(%s)', '<LazyRows %s>', 'H[%s]']) % body]
+    elif p < 0.92:
+        cfg['repr'] = ['raise', exc()]
+    else:
+        cfg['repr'] = ['nonstr']
+    q = rng.random()
+    if q < 0.45:
+        cfg['len'] = ['raise', exc()]
+    elif q < 0.6:
+        cfg['len'] = ['ret', rng.choice([-1, -7, 2 ** 63, 2 ** 70, 10 ** 30])]       # ValueError / OverflowError from len()
+    elif q < 0.68:
+        cfg['len'] = ['nonint']
+    elif q < 0.8:
+        cfg['len'] = ['ret', rng.choice([0, 3, 10 ** 6])]                            # lies: any number
+    for dunder, pr in (('bool', 0.12), ('eq', 0.12), ('hash', 0.08)):
+        if rng.random() < pr:
+            cfg[dunder] = ['raise', exc()] if rng.random() < 0.7 else ['ret', rng.choice([True, False, 0]) if dunder != 'hash' else 3]
+    return cfg
+
+
+def hostile_case(rng, g):
+    """(target JSON, spec): a hostile value as the root target, below the root target (reached by a chain step / inside a
+    container that is shown), as the target of a branch, and as the SPEC (a callable object that raises)"""
+    T0 = {'k': 't', 'steps': []}
+    S = lambda x: {'k': 'str', 's': x}
+    cfg = hostile_cfg(rng, long_repr=rng.random() < 0.85)
+    H = {'hostile': cfg}
+    fail = lambda: rng.choice([S('zz'), {'k': 't', 'steps': [['.', ic.enc('zz')]]}, {'k': 't', 'steps': [['[', ic.enc('zz')]]},
+                               g.fn(rng.choice(['raise_ve', 'raise_glom', 'x_key', 'x_ownstr'])),
+                               {'k': 'coalesce', 'subs': [S('zz'), S('yy.q')], 'dflt': None, 'dflt_factory': None, 'skip': None,
+                                'skip_exc': ['GlomError']},
+                               {'k': 'match', 's': {'k': 'ty', 'name': 'int'}, 'dflt': None}])
+    w = rng.random()
+    if w < 0.35:
+        return H, fail()
+    if w < 0.5:
+        return {'d': [[{'s': 'a'}, H]]}, {'k': rng.choice(['tuple', 'pipe']), 'xs': [S('a'), fail()]}
+    if w < 0.6:
+        return {'l': [H, {'i': 1}]}, rng.choice([S('zz'), {'k': 'tuple', 'xs': [{'k': 't', 'steps': [['[', ic.enc(0)]]}, fail()]}])
+    if w < 0.7:
+        return {'d': [[{'s': 'a'}, H]]}, {'k': 'coalesce', 'subs': [S('zz'), {'k': 'tuple', 'xs': [S('a'), fail()]}], 'dflt': None,
+                                        'dflt_factory': None, 'skip': None, 'skip_exc': ['GlomError']}
+    if w < 0.8:
+        return {'d': [[{'s': 'a'}, H]]}, {'k': 'dict', 'es': [[S('u'), T0], [S('v'), {'k': 'tuple', 'xs': [S('a'), fail()]}]]}
+    if w < 0.9:
+        return {'d': [[{'s': 'a'}, H]]}, {'k': 'switch', 'cases': [[S('zz'), T0], [S('a'), {'k': 'tuple', 'xs': [S('a'), fail()]}]], 'dflt': None}
+    # the hostile object is the spec: a callable that raises
+    cfg2 = dict(cfg)
+    cfg2['call'] = ['raise', rng.choice(['ValueError', 'KeyError', 'HostileError'])]
+    g.nfn += 1
+    hs = {'k': 'fn', 'name': 'xh%d' % g.nfn, 'kind': 'x_obj', 'v': {'hostile': cfg2}}
+    return ic.enc(g.target()), rng.choice([hs, {'k': 'tuple', 'xs': [T0, hs]}, {'k': 'dict', 'es': [[S('k'), hs]]},
+                                   {'k': 'coalesce', 'subs': [S('zz'), hs], 'dflt': None, 'dflt_factory': None, 'skip': None,
+                                    'skip_exc': ['GlomError']}])
+
+
+def recovered_key(rng, g, t, in_match, depth=1):
+    """a KEY spec that matches `t` although an alternative inside it failed first and was recovered from:
+    Or(rejected…, ok), Coalesce(rejected…, ok), Not(rejected), And(ok, such a key), such a key in a chain / nested"""
+    T0 = {'k': 't', 'steps': []}
+    ok = {'k': 'ty', 'name': 'object'} if in_match else T0
+    rej = lambda: rejected(rng, g, t, in_match, 0)
+    p = rng.random()
+    if p < 0.3:
+        return {'k': 'or', 'cs': [rej() for _ in range(rng.randint(1, 2))] + [ok], 'dflt': None}
+    if p < 0.5 and not in_match:
+        return {'k': 'coalesce', 'subs': [rej() for _ in range(rng.randint(1, 2))] + [ok], 'dflt': None, 'dflt_factory': None,
+                'skip': None, 'skip_exc': ['GlomError']}
+    if p < 0.65:
+        return {'k': 'not', 'c': rej()}
+    if p < 0.75 and depth > 0:
+        return {'k': 'and', 'cs': [ok, recovered_key(rng, g, t, in_match, depth - 1)], 'dflt': None}
+    if p < 0.85 and depth > 0:
+        return {'k': 'or', 'cs': [rej(), recovered_key(rng, g, t, in_match, depth - 1)], 'dflt': None}
+    if p < 0.93 and not in_match:
+        return {'k': 'tuple', 'xs': [T0, recovered_key(rng, g, t, in_match, 0)]}
+    return {'k': 'or', 'cs': [rej(), ok], 'dflt': rng.choice([None, T0])}
+
+
+def key_then_fail(rng, g, t):
+    """the hosts that chain a VALUE spec onto a KEY spec that matched (Switch cases, Match-dict entries): the key
+    matches only after an inner alternative failed and was recovered, then the value fails -- the recovered
+    alternative is forgiven, the trace goes host -> key -> value; placed bare / as a chain step / dict value /
+    branch of an outer Coalesce or Or; also after earlier cases whose keys are rejected"""
+    T0 = {'k': 't', 'steps': []}
+    host = rng.choice(['switch', 'switch', 'switch_in_match', 'matchdict', 'matchdict'])
+    if host == 'matchdict':
+        # the entries of a dict target are matched key by key: key pattern against the key, value pattern against the value
+        t = {rng.choice(['a', 'b', 'k']): rng.choice([1, 'v', None, [1]])}
+        kobj, vobj = list(t.items())[0]
+        key = recovered_key(rng, g, kobj, True)
+        val = rng.choice([{'k': 'ty', 'name': rng.choice(other_types(vobj))}, rejected(rng, g, vobj, True, 0)])
+        es = [[key, val]]
+        if rng.random() < 0.3:
+            es.insert(0, [{'k': 'ty', 'name': rng.choice(other_types(kobj))}, {'k': 'ty', 'name': 'object'}])
+        spec = {'k': 'match', 's': {'k': 'dict', 'es': es}, 'dflt': None}
+    else:
+        in_match = host == 'switch_in_match'
+        key = recovered_key(rng, g, t, in_match)
+        val = rejected(rng, g, t, in_match) if rng.random() < 0.7 else {'k': 'tuple', 'xs': [T0, rejected(rng, g, t, in_match, 0)]}
+        cases = [[rejected(rng, g, t, in_match, 0), T0] for _ in range(rng.randint(0, 2))] + [[key, val]]
+        if rng.random() < 0.3:
+            cases.append([T0, T0])
+        spec = {'k': 'switch', 'cases': cases, 'dflt': None}
+        if in_match:
+            spec = {'k': 'match', 's': spec, 'dflt': None}
+    w = rng.random()
+    if w < 0.2:
+        spec = {'k': rng.choice(['tuple', 'pipe']), 'xs': [T0] * rng.randint(1, 2) + [spec]}
+    elif w < 0.32:
+        spec = {'k': 'dict', 'es': [[{'k': 'str', 's': 'k'}, spec]]}
+    elif w < 0.44:
+        spec = {'k': 'coalesce', 'subs': [{'k': 'str', 's': 'zz'}, spec], 'dflt': None, 'dflt_factory': None, 'skip': None,
+                'skip_exc': ['GlomError']}
+    elif w < 0.52:
+        spec = {'k': 'or', 'cs': [{'k': 'str', 's': 'zz'}, spec], 'dflt': None}
+    return t, spec
+
+
 SELFREF_POS = ['coalesce_default', 's_kw', 'call_arg', 'invoke_spec', 't_method', 'fill']
 
 
@@ -1106,6 +1347,9 @@ def build_selfref(sr):
 LIMIT_VALUES = True
 P_LIMIT = 0.16
 P_REPR_UNIT = 0.10
+# values with hostile dunders (C05-s11); the switch is for the case that they expose a defect of the unchanged tree
+HOSTILE_VALUES = True
+P_HOSTILE = 0.08
 
 
 def generate(rng, tier, scale, **focus):
@@ -1131,6 +1375,9 @@ def generate(rng, tier, scale, **focus):
         elif q < 0.22:
             # a branching spec all of whose branches fail and whose default= is a spec that raises
             spec = default_raises(rng, g, t)
+        elif q < 0.30:
+            # a Switch case / Match-dict entry whose key matched after a recovered inner failure and whose value fails
+            t, spec = key_then_fail(rng, g, t)
         if rng.random() < 0.08:
             # the original error has a multi-line message (blank and caret-only lines included)
             spec = {'k': rng.choice(['tuple', 'pipe']), 'xs': [spec, g.fn(rng.choice(['raise_multiline', 'nested_glom_fail',
@@ -1143,7 +1390,11 @@ def generate(rng, tier, scale, **focus):
                 spec = replace_at(spec, rng.choice(pos), g.xfn())
         case = {'spec': spec, 'target': ic.enc(t), 'width': rng.choice(WIDTHS), '_gen': True}
         lq = rng.random()
-        if lq < P_LIMIT and LIMIT_VALUES:
+        if lq >= 1 - P_HOSTILE and HOSTILE_VALUES:
+            # a value whose __repr__ / __len__ / __bool__ / __eq__ / __hash__ raises or lies
+            t5, spec5 = hostile_case(rng, g)
+            case = {'spec': spec5, 'target': t5, 'width': rng.choice(WIDTHS), '_gen': True}
+        elif lq < P_LIMIT and LIMIT_VALUES:
             # a target / spec value that crosses a default size limit of reprlib, at a random position
             t5, spec5 = limit_case(rng, g, tier)
             case = {'spec': spec5, 'target': enc5(t5), 'width': rng.choice(WIDTHS), '_gen': True}
